@@ -598,3 +598,152 @@ pub fn run_behaviour(form: &str, prog: Vec<Ast>, cfg: &Cfg, stims: &[Stim]) -> V
   }
   out
 }
+
+// ---------------------------------------------------------------------------------------------
+// The mutable-reference subject variants (MutRefItemSubject, MutRefErrSubject, MutRefItemErrSubject):
+// same Subject API, items / errors handed out as `&mut`; subscribers are plain probes on the subject.
+// ---------------------------------------------------------------------------------------------
+pub struct MProbe {
+  id: i64,
+  sh: Arc<Shared>,
+  react: Option<Box<dyn FnMut()>>,
+}
+macro_rules! mprobe_impl {
+  ($item:ty, $err:ty, $iv:expr, $ev:expr) => {
+    impl<'i, 'e> Observer<$item, $err> for MProbe {
+      fn next(&mut self, v: $item) {
+        self.sh.record(self.id, 'N', $iv(v));
+        if let Some(r) = self.react.as_mut() {
+          r()
+        }
+      }
+      fn error(self, e: $err) {
+        self.sh.record(self.id, 'E', $ev(e));
+      }
+      fn complete(self) {
+        self.sh.record(self.id, 'C', Val::U);
+      }
+      fn is_finished(&self) -> bool {
+        false
+      }
+    }
+  };
+}
+mprobe_impl!(&'i mut Val, Val, |v: &mut Val| v.clone(), |e: Val| e);
+mprobe_impl!(Val, &'e mut Val, |v: Val| v, |e: &mut Val| e.clone());
+mprobe_impl!(&'i mut Val, &'e mut Val, |v: &mut Val| v.clone(), |e: &mut Val| e.clone());
+
+macro_rules! mutref_runner {
+  ($name:ident, $subject:ty, $next:expr, $error:expr) => {
+    pub struct $name {
+      sh: Arc<Shared>,
+      subject: $subject,
+      handles: Vec<Option<Subscriber<MProbe>>>,
+      dead: bool,
+    }
+    impl $name {
+      pub fn new() -> $name {
+        crate::vsched::reset();
+        $name { sh: Shared::new(), subject: <$subject>::default(), handles: vec![], dead: false }
+      }
+      fn run(&mut self, s: &Stim) -> Val {
+        let sh = self.sh.clone();
+        match s.k.as_str() {
+          "sub" => {
+            let react: Option<Box<dyn FnMut()>> = if s.b == 3 {
+              let (subj, sh2) = (self.subject.clone(), sh.clone());
+              Some(Box::new(move || {
+                let p = MProbe { id: sh2.new_probe_id(), sh: sh2.clone(), react: None };
+                let _ = subj.clone().actual_subscribe(p);
+              }))
+            } else {
+              None
+            };
+            let p = MProbe { id: sh.new_probe_id(), sh: sh.clone(), react };
+            self.handles.push(Some(self.subject.clone().actual_subscribe(p)));
+            Val::U
+          }
+          "emit" => {
+            let mut v = s.v.clone();
+            match s.t.as_str() {
+              "N" => $next(&mut self.subject.clone(), &mut v),
+              "E" => $error(self.subject.clone(), &mut v),
+              _ => self.subject.clone().complete(),
+            }
+            Val::U
+          }
+          "unsub" => {
+            if let Some(h) = self.handles[(s.a - 1) as usize].take() {
+              h.unsubscribe();
+            }
+            Val::U
+          }
+          "closed" => match &self.handles[(s.a - 1) as usize] {
+            Some(h) => Val::B(h.is_closed()),
+            None => Val::B(true),
+          },
+          "squery" => match s.b {
+            1 => Val::I(self.subject.len() as i64),
+            2 => Val::B(self.subject.is_empty()),
+            _ => Val::B(self.subject.is_closed()),
+          },
+          "sretain" => {
+            self.subject.retain();
+            Val::U
+          }
+          "sunsub" => {
+            self.subject.clone().unsubscribe();
+            Val::U
+          }
+          other => panic!("harness: stimulus {other} not supported on a MutRef subject"),
+        }
+      }
+    }
+    impl Runner for $name {
+      fn exec(&mut self, s: &Stim) -> StepObs {
+        let sh = self.sh.clone();
+        let _ = sh.take_log();
+        let r = catch_unwind(AssertUnwindSafe(|| self.run(s)));
+        let (ret, fault) = match r {
+          Ok(v) => (v, String::new()),
+          Err(_) => {
+            self.dead = true;
+            (Val::U, classify_panic(&LAST_PANIC.with(|p| p.borrow().clone())))
+          }
+        };
+        StepObs { log: sh.take_log(), ret, fault, cnt: sh.counters(), live: 0, tm: vec![] }
+      }
+    }
+  };
+}
+mutref_runner!(RunnerMItem, MutRefItemSubject<'static, Val, Val>,
+  |s: &mut MutRefItemSubject<'static, Val, Val>, v: &mut Val| s.next(v),
+  |s: MutRefItemSubject<'static, Val, Val>, e: &mut Val| s.error(e.clone()));
+mutref_runner!(RunnerMErr, MutRefErrSubject<'static, Val, Val>,
+  |s: &mut MutRefErrSubject<'static, Val, Val>, v: &mut Val| s.next(v.clone()),
+  |s: MutRefErrSubject<'static, Val, Val>, e: &mut Val| s.error(e));
+mutref_runner!(RunnerMBoth, MutRefItemErrSubject<'static, Val, Val>,
+  |s: &mut MutRefItemErrSubject<'static, Val, Val>, v: &mut Val| s.next(v),
+  |s: MutRefItemErrSubject<'static, Val, Val>, e: &mut Val| s.error(e));
+
+/// run a behaviour on one of the MutRef subject variants (kind 1 item, 2 err, 3 both)
+pub fn run_mutref(kind: u64, stims: &[Stim]) -> Vec<StepObs> {
+  fn go<R: Runner>(mut r: R, stims: &[Stim]) -> Vec<StepObs> {
+    let mut out = vec![];
+    for s in stims {
+      let o = r.exec(s);
+      let f = !o.fault.is_empty();
+      out.push(o);
+      if f {
+        std::mem::forget(r);
+        return out;
+      }
+    }
+    out
+  }
+  match kind {
+    1 => go(RunnerMItem::new(), stims),
+    2 => go(RunnerMErr::new(), stims),
+    _ => go(RunnerMBoth::new(), stims),
+  }
+}
